@@ -328,6 +328,9 @@ def record_and_validate(ev, fnd, tier, matchers, prop="C09", bins=None):
             first = open(files[0]).read().splitlines()
             if len(first) > 5:
                 ev.sample({"trace_event": json.loads(first[5])}, 5)
+    if not rejected:
+        import shutil
+        shutil.rmtree(work, ignore_errors=True)
     ev.cov["traces_validated_against_impl"] += nfiles
     ev.parts["traces_8x8"] = {"trace_files": nfiles, "events_matched": nev, "events_by_op": ops,
                               "executions_per_file": executions, "steps_per_execution": steps,
